@@ -1,0 +1,50 @@
+//go:build verif
+
+package schedulemanager
+
+// Add-only export for the verification harness (property C11). Not part of the
+// normal build: lets the harness look at the crontab -> ids map and at the cron
+// entries actually registered, without starting the cron scheduler.
+
+import (
+	"sort"
+)
+
+// VerifC11Entry is one crontab of scheduleManager.Entries.
+type VerifC11Entry struct {
+	Crontab string
+	EntryID int
+	Ids     []string // sorted
+}
+
+// VerifC11CronEntry is one entry registered in the cron library.
+type VerifC11CronEntry struct {
+	EntryID int
+	// Fires is what running the entry's job sends on ScheduleCh (the crontab string).
+	Fires string
+}
+
+// VerifC11Snapshot lists Entries (sorted by crontab) and the cron entries in the
+// cron library's own order. For every cron entry its job is run once, synchronously,
+// and the value it sends on the schedule channel is received right away, so the
+// channel is left as it was. The scheduler must not have been started.
+func (sm *scheduleManager) VerifC11Snapshot() ([]VerifC11Entry, []VerifC11CronEntry) {
+	entries := make([]VerifC11Entry, 0, len(sm.Entries))
+	for crontab, e := range sm.Entries {
+		ids := make([]string, 0, len(e.Ids))
+		for id := range e.Ids {
+			ids = append(ids, id)
+		}
+		sort.Strings(ids)
+		entries = append(entries, VerifC11Entry{Crontab: crontab, EntryID: int(e.EntryID), Ids: ids})
+	}
+	sort.Slice(entries, func(i, j int) bool { return entries[i].Crontab < entries[j].Crontab })
+
+	cronEntries := []VerifC11CronEntry{}
+	for _, e := range sm.cron.Entries() {
+		e.Job.Run()
+		fired := <-sm.ScheduleCh
+		cronEntries = append(cronEntries, VerifC11CronEntry{EntryID: int(e.ID), Fires: fired})
+	}
+	return entries, cronEntries
+}
